@@ -10,6 +10,7 @@ import (
 	"math"
 	"os"
 	"path/filepath"
+	"regexp"
 	"sort"
 	"strings"
 
@@ -472,9 +473,76 @@ func roundTrip(d *Desc, fi *fmtInfo, i *insts.Inst) string {
 		if i.SAddr == nil || i.SAddr.IntValue != n("saddr") {
 			add("saddr differs")
 		}
-		if i.Offset0&0x1fff != uint32(n("offset")) {
-			add("offset differs")
+		wantOff := uint32(n("offset"))
+		if wantOff >= 4096 { // 13-bit signed offset, sign-extended to 32 bits
+			wantOff |= 0xFFFFE000
 		}
+		if i.Offset0 != wantOff {
+			add(fmt.Sprintf("offset differs: encoded %d, decoded %#x", n("offset"), i.Offset0))
+		}
+	}
+	// register counts (operand widths)
+	cnt := func(what string, o *insts.Operand, want int) {
+		if o != nil && o.OperandType == insts.RegOperand && o.RegCount != want {
+			add(fmt.Sprintf("%s: register count %d, expected %d", what, o.RegCount, want))
+		}
+	}
+	w64 := func(w int) int {
+		if w == 64 {
+			return 2
+		}
+		return 0
+	}
+	dsw := func(w int) int {
+		switch w {
+		case 64:
+			return 2
+		case 96:
+			return 3
+		case 128:
+			return 4
+		}
+		return 1
+	}
+	switch d.F {
+	case "Sop2":
+		c := 0
+		if strings.Contains(i.InstName, "64") {
+			c = 2
+		}
+		cnt("dst", i.Dst, c)
+		cnt("src0", i.Src0, c)
+		cnt("src1", i.Src1, c)
+	case "Sop1":
+		cnt("dst", i.Dst, w64(i.DSTWidth))
+		cnt("src0", i.Src0, w64(i.SRC0Width))
+	case "Vop1":
+		cd, c0 := w64(i.DSTWidth), w64(i.SRC0Width)
+		if d.Op == 4 || d.Op == 16 { // v_cvt_f64_i32, v_cvt_f64_f32
+			cd = 2
+		}
+		if d.Op == 15 { // v_cvt_f32_f64
+			c0 = 2
+		}
+		cnt("dst", i.Dst, cd)
+		cnt("src0", i.Src0, c0)
+	case "Vop3a":
+		cnt("dst", i.Dst, w64(i.DSTWidth))
+		cnt("src0", i.Src0, w64(i.SRC0Width))
+		cnt("src1", i.Src1, w64(i.SRC1Width))
+		cnt("src2", i.Src2, w64(i.SRC2Width))
+	case "Vop3b":
+		cnt("sdst", i.SDst, w64(i.SDSTWidth))
+		cnt("src0", i.Src0, w64(i.SRC0Width))
+		cnt("src1", i.Src1, w64(i.SRC1Width))
+		cnt("src2", i.Src2, w64(i.SRC2Width))
+	case "Ds":
+		cnt("addr", i.Addr, 1)
+		cnt("data0", i.Data, dsw(i.SRC0Width))
+		cnt("data1", i.Data1, dsw(i.SRC1Width))
+		cnt("vdst", i.Dst, dsw(i.DSTWidth))
+	case "Smem":
+		cnt("base", i.Base, 2)
 	}
 	return strings.Join(msgs, "; ")
 }
@@ -593,6 +661,58 @@ func fmtByName(n string) insts.FormatType {
 	return insts.SOP2
 }
 
+// ---------------------------------------------------------------- vendor disassembly listings
+
+var listingLine = regexp.MustCompile(`^\s+(\S+)\s*(.*?)\s*//\s*([0-9A-Fa-f]+):\s+([0-9A-Fa-f]{8})(?:\s+([0-9A-Fa-f]{8}))?\s*(?:<.*>)?\s*$`)
+
+type listingEntry struct {
+	mnemonic, source string
+	buf              []byte
+}
+
+// listings reads the llvm-objdump listings shipped next to the native (gfx942)
+// kernels: every line gives a mnemonic and the one or two dwords it was
+// disassembled from - a reference that is independent of the decode table.
+func listings(repo string) []listingEntry {
+	var files []string
+	filepath.Walk(filepath.Join(repo, "amd/benchmarks"), func(p string, info os.FileInfo, err error) error {
+		if err == nil && !info.IsDir() && strings.HasSuffix(p, ".disasm") {
+			files = append(files, p)
+		}
+		return nil
+	})
+	sort.Strings(files)
+	seen := map[string]bool{}
+	var out []listingEntry
+	for _, p := range files {
+		raw, err := os.ReadFile(p)
+		if err != nil {
+			continue
+		}
+		rel, _ := filepath.Rel(repo, p)
+		for _, line := range strings.Split(string(raw), "\n") {
+			m := listingLine.FindStringSubmatch(line)
+			if m == nil {
+				continue
+			}
+			var w0, w1 uint32
+			fmt.Sscanf(m[4], "%x", &w0)
+			buf := insts.Uint32ToBytes(w0)
+			if m[5] != "" {
+				fmt.Sscanf(m[5], "%x", &w1)
+				buf = append(buf, insts.Uint32ToBytes(w1)...)
+			}
+			key := m[1] + " " + hex.EncodeToString(buf)
+			if seen[key] {
+				continue
+			}
+			seen[key] = true
+			out = append(out, listingEntry{m[1], rel, buf})
+		}
+	}
+	return out
+}
+
 // ---------------------------------------------------------------- main
 
 func (e *env) wordCase(kind string, cdna3 bool, buf []byte, d *Desc, valid bool, fis map[string]*fmtInfo, rng *vh.Rng) *Case {
@@ -650,7 +770,9 @@ func main() {
 				continue
 			}
 			buf, _ := hex.DecodeString(c.Bytes)
-			cases = append(cases, e.wordCase(c.Kind, c.CDNA3, buf, c.Desc, c.Valid, fis, rng.Fork()))
+			nc := e.wordCase(c.Kind, c.CDNA3, buf, c.Desc, c.Valid, fis, rng.Fork())
+			nc.Want, nc.WantSize, nc.Source = c.Want, c.WantSize, c.Source
+			cases = append(cases, nc)
 		}
 	} else {
 		descNames := []string{"Sop2", "Sopk", "Sop1", "Sopc", "Sopp", "Smem", "Vop1", "Vop2", "Vop2Sdwa", "Vopc", "Vop3a", "Vop3b", "Ds", "Flat"}
@@ -777,6 +899,11 @@ func main() {
 			}
 			for _, w := range words {
 				cases = append(cases, e.wordCase("kernelword", w.cdna3, w.buf, nil, false, fis, r.Fork()))
+			}
+			for _, l := range listings(*repo) {
+				c := e.wordCase("listing", true, l.buf, nil, false, fis, r.Fork())
+				c.Want, c.WantSize, c.Source = l.mnemonic, len(l.buf), l.source
+				cases = append(cases, c)
 			}
 		}
 	}
